@@ -37,8 +37,8 @@ MANIFEST_ENTRY = {
         "encoding is proved under C04. Trusted: Lean kernel, harness, driver, mp4walk, shims."),
     "technique": "Lean 4 proof (least-index characterisation, loop invariants, induction over the timeline loop) + model/implementation correspondence",
 }
-PROP_FILES = ["DashLive/Props/C02.lean", "DashLive/Props/GenTie.lean", "DashLive/Props/GenTieTimeline.lean"]
-LEAN_TARGETS = ["DashLive.Props.C02", "DashLive.Props.GenTie", "DashLive.Props.GenTieTimeline"]
+PROP_FILES = ["DashLive/Props/C02.lean", "DashLive/Props/GenTie.lean", "DashLive/Props/GenTieTimeline.lean", "DashLive/Props/GenTieLiveIndex.lean"]
+LEAN_TARGETS = ["DashLive.Props.C02", "DashLive.Props.GenTie", "DashLive.Props.GenTieTimeline", "DashLive.Props.GenTieLiveIndex"]
 
 
 def _gen_arith():
@@ -47,6 +47,8 @@ def _gen_arith():
     import gen_timeline
     gen_arith.main()
     gen_timeline.main()
+    import gen_liveindex
+    gen_liveindex.main()
 
 GENERATORS = [_gen_arith]
 TRUSTED = [
